@@ -54,7 +54,7 @@ def partitions_ok(n: int, edges: List[Tuple[int, int]], sizes: List[Optional[int
     return out
 
 
-def ref_groups(n: int, edges: List[Tuple[int, int]], sizes: Any, borders: bool):
+def ref_groups(n: int, edges: List[Tuple[int, int]], sizes: Any, borders: bool, bconsts: Optional[Dict[int, bool]] = None):
     """sizes: None | int | term (one symbolic size for all) | list of Optional[int | term]; a term is ("S", k)"""
     cn = Canon({})
     G = lambda i: ("gid", i)  # noqa: E731
@@ -63,7 +63,7 @@ def ref_groups(n: int, edges: List[Tuple[int, int]], sizes: Any, borders: bool):
     A = lambda e: ("tree", e)  # noqa: E731
     DS = lambda i: ("down", i)  # noqa: E731
     TS = lambda i: ("total", i)  # noqa: E731
-    B = lambda e: ("B", e)  # noqa: E731
+    B = lambda e: ("c", bconsts[e]) if bconsts and e in bconsts else ("B", e)  # noqa: E731
     inc = incidence(n, edges)
 
     def cons() -> List[Tuple]:
@@ -229,11 +229,18 @@ def run(repo: Repo, rep: Report) -> None:
         n_ok = 0
         try:
             for gname, n, edges in SMALL:
-                for sizes in ([None] * n, [2] + [None] * (n - 1), [1] * n, [1] + [None] * (n - 1)):
+                # border flags as the caller's variables, and with Python constants among them (a border that is given: first flag True,
+                # last flag False) - the flag is then a plain bool, on which `~`, `==` and `!=` are Python's own operators
+                variants: List[Tuple[Any, Dict[int, bool], str]] = [(sz, {}, "") for sz in ([None] * n, [2] + [None] * (n - 1), [1] * n, [1] + [None] * (n - 1))]
+                if edges and not native:
+                    variants += [([None] * n, {0: True}, ", border 0 given as the constant True"),
+                                 ([None] * n, {len(edges) - 1: False}, f", border {len(edges) - 1} given as the constant False")]
+                for sizes, bconsts, note in variants:
                     inst = Instance(repo, div=native)
                     brd = inst.user_bools(len(edges), "B")
                     g = inst.w.graph(n, edges)
-                    inst.w.call("division_connected_variable_groups_with_borders", inst.s, group_size=list(sizes), is_border=brd, graph=g)
+                    flags: Any = brd if not bconsts else [bconsts.get(k, v) for k, v in enumerate(brd.attrs["data"])]
+                    inst.w.call("division_connected_variable_groups_with_borders", inst.s, group_size=list(sizes), is_border=flags, graph=g)
                     if native:
                         cn = Canon({})
                         refs = []
@@ -241,12 +248,12 @@ def run(repo: Repo, rep: Report) -> None:
                             "GRAPH_DIVISION", [("c", n), ("c", len(edges))] + [("c", s) for s in sizes] + [("c", x) for e in edges for x in e]
                             + [("B", k) for k in range(len(edges))])])
                     else:
-                        refs, cons = ref_groups(n, edges, list(sizes), True)
+                        refs, cons = ref_groups(n, edges, list(sizes), True, bconsts)
                     same, diff = compare(inst, refs, cons)
                     if same:
                         n_ok += 1
                     else:
-                        deviating.append((f"{gname}, group_size={sizes}", n, edges, inst, diff, list(sizes), None))
+                        deviating.append((f"{gname}, group_size={sizes}{note}", n, edges, inst, diff, list(sizes), bconsts or None))
         except Undecided as ex:
             rep.undecide("ENC-S", f"{label}: {ex}")
             continue
@@ -443,8 +450,9 @@ def _triage(rep: Report, label: str, devs: List[Any], with_borders: bool) -> Non
             continue
         if with_borders:
             valid = set()
+            given = ret_ids if isinstance(ret_ids, dict) else {}  # border flags passed as Python constants
             for flags in itertools.product([False, True], repeat=len(edges)):
-                p = border_partition(n, edges, flags)
+                p = border_partition(n, edges, tuple(given.get(k, f) for k, f in enumerate(flags)))
                 if p is not None and p in want_parts:
                     valid.add(flags)
             acc, rej = sorted(proj - valid), sorted(valid - proj)
